@@ -73,6 +73,15 @@ Expect(c) ==
     [] c.kind = "strfloat"    -> IF c.tgt \in FloatTypes THEN "ok" ELSE "either"      \* Atoi-style parsers may reject "1.5"
     [] c.kind = "bool"        -> "ok"                                                 \* true = 1, false = 0 fits every target
     [] c.kind \in {"nan", "pinf", "ninf"} -> IF c.tgt \in FloatTypes \cup {"bool"} THEN "ok" ELSE "fail"
+    \* the largest float64 below 1/2 (and its negative): rounds to 0, fits everywhere ("add 0.5 and truncate" yields 1)
+    [] c.kind = "halfbelow" -> "ok"
+    [] c.kind = "nhalfbelow" -> IF c.tgt \in {"uint", "uint8", "uint16", "uint32", "uint64", "uintptr"} THEN "either" ELSE "ok"   \* a negative source may be refused by an unsigned target
+    \* 2^52 + 1, an odd integer where the float64 spacing is exactly 1 (val + 0.5 is a tie and rounds to the even neighbour), and its negative
+    [] c.kind = "odd52"  -> IF c.tgt \in FloatTypes \cup {"bool", "int64", "uint64", "uintptr"} THEN "ok" ELSE IF c.tgt \in {"int", "uint"} THEN "either" ELSE "fail"
+    [] c.kind = "nodd52" -> IF c.tgt \in FloatTypes \cup {"bool", "int64"} THEN "ok" ELSE IF c.tgt = "int" THEN "either" ELSE "fail"
+    \* numeric strings in float notation beyond the 32-bit ranges ("3e9", "2147483648.0", "-2147483649.0", "1e30", "Inf", "NaN"): a parser may
+    \* reject them or convert them correctly, but (Judge) never hands back a different number with a nil error
+    [] c.kind = "strfloatbig" -> "either"
     [] c.kind = "negzero"     -> "ok"
     [] c.kind \in {"huge", "nhuge"} -> IF c.tgt \in {"float64", "bool"} THEN "ok" ELSE "fail"   \* outside float32 and every integer type
     [] c.kind = "strint" /\ c.tgt = "bool" -> "either"                                 \* "255" is not a boolean literal: an error is fine
